@@ -9,6 +9,7 @@ if ctx.replay:
 ctx.level = 'proof'
 vlib.proof_phase(ctx)
 _core_check.source_ordering(ctx)
+_core_check.source_lat(ctx)      # the class table, the listed bases and the closure loop, as translated from compiler.hpp
 res = coresuite.perm_suite(ctx.tier, ctx.seed)
 cov = coresuite.summarize_groups(ctx, res, 'registration orders')
 vlib.finish(ctx, cov, assumptions=['observations of the real library are compared across registration orders directly (model not involved); the theorem is about the specification, which the dispatch checks C01-C03 tie to the implementation'])
